@@ -40,14 +40,15 @@ SDPowerSet::Iterator::Iterator(const SDPowerSet& boolean, const bool isCompleted
 
 SDPowerSet::Iterator::reference SDPowerSet::Iterator::operator*() const {
   if (boolean->IsCached(counter)) {
-    return boolean->GetCache(counter);
+    current = boolean->GetCache(counter);
   } else {
     auto newData = Factory::EmptySet();
     for (const auto& iter : itemIterators) {
       newData.ModifyB().AddElement(*iter);
     }
-    return boolean->SaveCache(counter, newData);
+    current = boolean->SaveCache(counter, newData);
   }
+  return *current;
 }
 
 bool SDPowerSet::Iterator::operator==(const Iterator& rhs) const noexcept {
@@ -157,15 +158,16 @@ SDDecartian::Iterator::Iterator(const SDDecartian& base, const bool completed)
 
 SDDecartian::Iterator::reference SDDecartian::Iterator::operator*() const {
   if (decartian->IsCached(counter)) {
-    return decartian->GetCache(counter);
+    current = decartian->GetCache(counter);
   } else {
     std::vector<StructuredData> components{};
     components.reserve(size(componentIters));
     for (const auto& compIter : componentIters) {
       components.emplace_back(*compIter);
     }
-    return decartian->SaveCache(counter, Factory::Tuple(components));
+    current = decartian->SaveCache(counter, Factory::Tuple(components));
   }
+  return *current;
 }
 
 bool SDDecartian::Iterator::operator==(const Iterator& rhs) const noexcept {
